@@ -447,6 +447,31 @@ def judge_full(case, a, keep_going=False):
         res = st["res"]
         name = op[0]
         live_before = prev_state is not None and prev_state["k"] != "-" and prev_state["k"].split("/")[0] != "-"
+        # refusals that have no ground: a valid record that fits is inserted; a name that is not longer than the one it
+        # replaces is installed whatever the size of the packet
+        if name == "insert" and res.startswith("err:") and prev_bytes is not None and not (waived - {KF1}):
+            try:
+                wire = refsynth.synth(_hex(op[2]))
+                mb0 = refdec.decode(prev_bytes)
+                plain = len(refdec.encode(mb0))
+                s_idx = {"A": 0, "N": 1, "R": 2}[op[1]]
+                if plain + len(wire) <= 8192 and mb0.counts[1 + s_idx] < 65535:
+                    fails.append(("C09", "insertion of a valid record that fits (%d + %d bytes) was refused: %s" % (plain, len(wire), res), i))
+                    return fails, waived
+            except (refsynth.Outside, refsynth.Refused, refdec.Undecodable, KeyError, IndexError, ValueError):
+                pass
+        if name == "setname" and res == "err:PacketTooLarge" and prev_bytes is not None and cursor_sec in ("A", "N", "R", "O") and live_before:
+            try:
+                mb0 = lax_decode(prev_bytes)
+                tgt0 = cursor_record(mb0, prev_state, cursor_sec)
+                labels, _ = refdec.dec_name(_hex(op[1]), 0)
+                if tgt0 not in (None, "Q"):
+                    old = mb0.secs[tgt0[0]][tgt0[1]].name
+                    if sum(len(l) + 1 for l in labels) <= sum(len(l) + 1 for l in old):
+                        fails.append(("C09", "set-name to a name that is not longer than the current owner was refused as too large", i))
+                        return fails, waived
+            except (refdec.Undecodable, IndexError, ValueError):
+                pass
         if name in ("setname", "delete", "ttl", "ip") and prev_bytes is not None and cursor_sec and not res.startswith("err:") and res != "nocursor":
             try:
                 mb, ma = lax_decode(prev_bytes), lax_decode(st["bytes"])
@@ -490,7 +515,8 @@ def judge_full(case, a, keep_going=False):
                     m = lax_decode(st["bytes"])
                     s = {"A": 0, "N": 1, "R": 2, "O": 2}[cursor_sec]
                     prev_off = int(prev_state["k"].split("/")[0])
-                    offs = [r.off for r in m.secs[s] if not (r.typ == 41 and (cursor_sec == "R" or name == "next"))]
+                    # the step taken decides whether OPT is skipped, not the way the cursor was opened
+                    offs = [r.off for r in m.secs[s] if not (r.typ == 41 and name == "next")]
                     alloffs = [r.off for r in m.secs[s]]
                     cur_off = int(st["k"].split("/")[0])
                     if prev_off in alloffs:
